@@ -5,6 +5,7 @@ Observation is done from outside by class-level attribute replacement inside a c
 (restored on exit), so no source hook is needed and nothing leaks into pickled samplers.
 """
 import copy
+import os
 import hashlib
 import contextlib
 
@@ -39,6 +40,7 @@ class LL:
         self.blob_dtype = None
         self.blob_form = None   # None: (logl, tag) | "two": (logl, tag, 2 tag) | "vector": (logl, array([tag, 2 tag, 3 tag])) | "str": (logl, repr(tag))
         self.ret = None         # how the log-likelihood value itself is spelled: None (Python float) | "np.float64" | "0d" | "list" / "readonly" (vectorised)
+        self.count_path = None  # a file that receives one byte per evaluation (O_APPEND): counts evaluations made in OTHER processes (pool workers) too
         self.noisy = False      # pseudo-marginal style: every call returns logL + a call-specific perturbation and the call's serial number as blob
         self.serial = 0
         self.uses_rng = False   # the user's likelihood itself draws from numpy's global generator (legal; the seeded run must stay reproducible)
@@ -55,6 +57,12 @@ class LL:
                 if getattr(self, "fail_kind", "exc") == "kbd":
                     raise UserInterrupt("Ctrl-C injected while the user's likelihood runs")
                 raise UserFailure("transient failure injected into the user's likelihood")
+        if self.count_path is not None:
+            fd = os.open(self.count_path, os.O_WRONLY | os.O_APPEND | os.O_CREAT)
+            try:
+                os.write(fd, b"." if self.mode != "vec" else b"." * len(x))
+            finally:
+                os.close(fd)
         if self.uses_rng:
             np.random.random()
         if self.mode == "vec":
@@ -171,6 +179,7 @@ def make_sampler(cfg, pool=None):
     ll.ret = c.get("ll_return")
     ll.uses_rng = bool(c.get("ll_rng"))
     ll.noisy = bool(c.get("ll_noisy"))
+    ll.count_path = c.get("count_path")
     per, ref = BOUNDARY[c["boundary"]]
     kw = dict(
         prior_transform=_as_callable(PRIORS[c["prior"]], c.get("callable"), "prior_transform"), log_likelihood=_as_callable(ll, c.get("callable"), "log_likelihood"), n_dim=c["d"], n_particles=c["n_particles"], ess_ratio=c["ess_ratio"],
